@@ -56,7 +56,10 @@ HiOf(m, c, s, b) == IF m = "ha" THEN RAdd(Nom(c, s, b), R(2 + b)) ELSE RAdd(Nom(
 LoOf(m, c, s, b) == IF m = "ha" THEN RSub(Nom(c, s, b), R(1 + s)) ELSE RSub(Nom(c, s, b), RN(9 + b, 4))
 NHi(m, c, s)   == IF m = "na" THEN RN(4 + c, 4) ELSE RN(6 + s, 5)
 NLo(m, c, s)   == IF m = "na" THEN RN(3, 2 + 2 * s) ELSE RN(4, 4 + c)
-Unc(m, c, s, b) == IF m = "u" THEN RN(Nom(c, s, b)[1], 2 + b) ELSE RN(c + s + b, 2)
+\* uncertainties; one shapesys bin and one staterror bin carry a ZERO uncertainty (invalid bin: factor 1 and fixed;
+\* zero total MC uncertainty: width 1 and fixed) so that mixed fixed flags occur
+Unc(m, c, s, b) == IF m = "u" THEN (IF b = 2 /\ s = 2 THEN RZero ELSE RN(Nom(c, s, b)[1], 2 + b))
+                   ELSE (IF b = 2 /\ c = 2 THEN RZero ELSE RN(c + s + b, 2))
 
 ModRec(m, c, s, nbin) ==
   [name |-> MName(m, c, s), type |-> MType(m),
@@ -76,9 +79,9 @@ NoCfg(n) == [name |-> n, inits |-> <<>>, bounds |-> <<>>, fixed |-> <<>>, auxdat
 OverridePars(o, has(_)) ==      \* has(n): parameter name n occurs in the specification
   CASE o = 0 -> <<>>
     [] o = 1 -> (IF has(4) THEN <<[NoCfg(4) EXCEPT !.inits = <<R(2)>>, !.bounds = << <<RZero, R(5)>> >>]>> ELSE <<>>)
-             \o (IF has(1) THEN <<[NoCfg(1) EXCEPT !.inits = <<RN(1, 2)>>, !.fixed = <<TRUE>>]>> ELSE <<>>)
+             \o (IF has(1) THEN <<[NoCfg(1) EXCEPT !.inits = <<R(1)>>, !.fixed = <<TRUE>>]>> ELSE <<>>)   \* integer: the name may carry a normsys (exact lane)
     [] o = 2 -> (IF has(1) THEN <<[NoCfg(1) EXCEPT !.auxdata = <<RN(1, 2)>>]>> ELSE <<>>)
-             \o (IF has(7) THEN <<[NoCfg(7) EXCEPT !.bounds = << <<R(-3), R(3)>> >>, !.inits = <<RN(-1, 2)>>]>> ELSE <<>>)
+             \o (IF has(7) THEN <<[NoCfg(7) EXCEPT !.bounds = << <<R(-3), R(3)>> >>, !.inits = <<R(-1)>>]>> ELSE <<>>)
              \o (IF has(5) THEN <<[NoCfg(5) EXCEPT !.fixed = <<TRUE>>, !.inits = <<RN(3, 2)>>]>> ELSE <<>>)
 MkSpec(nbv, pres, md) ==
   LET cs == SortSet({c \in 1..2 : nbv[c] > 0})
